@@ -7,9 +7,11 @@ CONSTANTS
   GenBias = TRUE
   FixRenew = TRUE
   PlanIdx = {"p1"}
-  Buyers = {"c"}
-  Durs = {1}
+  Durs = {1, 2}
   WithRelay = FALSE
+  Consumers = {"c1", "c2"}
+  ThirdParty = {}
+  WithDrain = TRUE
   PriceVar = {0, 1}
 INIT Init
 NEXT GenNext
